@@ -1,3 +1,45 @@
-From BP Require Import Base.Chars.
-Theorem C09_placeholder : True. Proof. exact I. Qed.
-Print Assumptions C09_placeholder.
+(* C09 - duplicate keys are never merged or dropped: first wins, the rest are flagged.
+   Statements only; proofs in Proofs/DupProofs.v.  (That a well-formed document yields one raw block per source block
+   is C02; here: what Library.add makes of ANY sequence of raw blocks, and what the splitter emits for repeated
+   field names in ANY entry.) *)
+From Coq Require Import String List NArith ZArith.
+From BP Require Import Base.Chars Model.Blocks Model.LibAdd Model.Splitter Spec.C09 Proofs.DupProofs.
+Import ListNotations.
+
+(* the library's block list is the source list with every later same-key Entry / String replaced, at its own
+   position, by a duplicate-key block exposing the key, the FIRST block with that key and the complete duplicate *)
+Theorem C09_classify : forall bs, rebuild bs = flag_all [] bs.
+Proof. exact rebuild_flag_all. Qed.
+Print Assumptions C09_classify.
+
+Theorem C09_count : forall bs, length (rebuild bs) = length bs.
+Proof. exact rebuild_length. Qed.
+Print Assumptions C09_count.
+
+Theorem C09_position : forall bs i d, i < length bs -> nth i (rebuild bs) d = flagged (firstn i bs) (nth i bs d).
+Proof. exact rebuild_nth. Qed.
+Print Assumptions C09_position.
+
+(* first wins: the two key indexes map each key to the first source block with that key; duplicate-field blocks
+   are never registered *)
+Theorem C09_first_wins_entries : forall bs k, dict_get (ents (lib_of bs)) k = first_entry k bs.
+Proof. exact entries_dict_first. Qed.
+Print Assumptions C09_first_wins_entries.
+Theorem C09_first_wins_strings : forall bs k, dict_get (strs (lib_of bs)) k = first_string k bs.
+Proof. exact strings_dict_first. Qed.
+Print Assumptions C09_first_wins_strings.
+Theorem C09_dupfield_not_registered : forall bs k,
+  dict_get (ents (lib_of bs)) k = None <-> (forall h t f, ~ In (BEntry h t k f) bs).
+Proof. exact entry_key_absent_iff. Qed.
+Print Assumptions C09_dupfield_not_registered.
+
+Theorem C09_split_is_flagged : forall t bs, split_raw t = Blocks bs -> split t = Blocks (flag_all [] bs).
+Proof. exact split_is_flagged. Qed.
+Print Assumptions C09_split_is_flagged.
+
+(* for EVERY text: an emitted plain entry has pairwise distinct field names; an entry that repeats a field name is
+   emitted as a duplicate-field block whose keys are exactly the names occurring at least twice and whose inner
+   entry (same header) still has every field occurrence *)
+Theorem C09_dup_fields : forall t bs, split_raw t = Blocks bs -> Forall dup_ok bs.
+Proof. exact split_raw_dup_ok. Qed.
+Print Assumptions C09_dup_fields.
